@@ -46,6 +46,30 @@ CHECKS.update({
    tech="Lean 4 proof (global loop = first accepted prefix of the fixed-size refinement sequence) + exact oracle-fed differential correspondence",
    ref="DESIGN.md §3 C06"),
 })
+CHECKS.update({
+ 'C11': dict(
+   text="Lean theorems about ONE skeleton shared by the four linkages, for every distance oracle, threshold and n: labels_length, labels_start_at_zero, labels_step, "
+        "labels_monotone, labels_rule (a new cluster starts at i iff the linkage distance of i to the cluster containing i-1 is >= t), count_antitone_of_antitone_start "
+        "with corollaries single_count_antitone and complete_count_antitone (exact Q distances, strictly increasing x), centroid_is_mean (incremental update = arithmetic mean in Q). "
+        "Tie: oracle-fed exact label correspondence for all four linkages, exact-Q model on conclusive cases, Layer-N value check of the four distance definitions.",
+   note=TB + " Float evaluation of the linkage distance is an oracle (harness evaluates the property's definition in float64); exact-Q comparisons are made only where every margin exceeds 2^-30 or the float value is exactly the rational one.",
+   tech="Lean 4 proof (prefix invariant of the label walk; two-run simulation for antitonicity; field arithmetic for the centroid) + oracle-fed differential correspondence",
+   ref="DESIGN.md §3 C11"),
+ 'C13': dict(
+   text="Lean theorems for every height function, IoU oracle, threshold and knee list: worst_sublist, worst_heights_nonincreasing, worst_idempotent, worst_is_running_minimum "
+        "(kept knees = prefix-minimum records), corner_partition, corner_disjoint, corner_filter_rule, corner_select_rule, sublist/idempotence of both corner filters. "
+        "Tie: exact correspondence of filter_worst_knees / filter_corner_knees / select_corner_knees with IoU values from the package's own rect/rect_overlap.",
+   note=TB + " IoU is an oracle here; its exact definition is tied to rect_overlap under C17.",
+   tech="Lean 4 proof (structural induction over the knee list) + exact oracle-fed differential correspondence",
+   ref="DESIGN.md §3 C13"),
+ 'C19': dict(
+   text="Lean theorems for every distance oracle, tolerance and sizes: cm_tp_fn, cm_tp_fp (used knees are duplicate-free indices < |K|), cm_sum, cm_tn_nonneg, cm_greedy_step; "
+        "accuracy_unit, f1_unit, mcc_sq_le_one ((tp*tn-fp*fn)^2 <= (tp+fp)(tp+fn)(tn+fp)(tn+fn)), perfect-detection values. Tie: exact oracle-fed correspondence of evaluation.cm; "
+        "direct predicates for accuracy/F1/MCC ranges and for MAE/MSE/RMSE/RMSPE against a reference nearest-neighbour matching for the 4 strategies.",
+   note=TB + " The matching-error scores (mae/mse/rmse/rmspe, strategy side) are decided by the direct predicate on the real code (reference implementation in the harness), not by a theorem: partial for that clause.",
+   tech="Lean 4 proof (Nodup/pigeonhole invariant of the greedy matching; polynomial inequality for MCC) + exact oracle-fed differential correspondence",
+   ref="DESIGN.md §3 C19"),
+})
 NA = {}
 props = [json.loads(l) for l in open(os.path.join(V, 'properties.jsonl'))]
 checks = []
